@@ -36,6 +36,8 @@ def run(rep, tier):
                       "edge) + 1; an already explored vertex keeps its label; the node is written back and marked explored on every path")
     rep.rule("R16.4", "traversal step: exec explores exactly the one unexplored end of the edge (none: nothing happens, two: error); the breadth-first "
                       "queue hands out the oldest edge of the oldest level and only queues edges that lead to unexplored vertices")
+    rep.rule("R16.6", "findStructureId: every candidate start vertex is explored on its own fresh copy of the input graph (declared inside the candidate loop, "
+                      "initialised from the parameter, which is not written before the loop ends), with its own visitor; the id kept is the largest")
     rep.rule("R16.5", "singleNetwork: true exactly when the exploration reached every vertex and no node is isolated; the exploration runs first")
     units = [front.repo("tools/src/libtools/" + u) for u in ("graph.cc", "graphnode.cc", "graphalgorithm.cc", "graphvisitor.cc", "graph_bf_visitor.cc",
                                                              "graphdistvisitor.cc")] + [front.repo("csg/src/libcsg/beadstructure.cc")]
@@ -228,6 +230,62 @@ def run(rep, tier):
                 ok, why = False, "for all-vertices-reached=%s, no-isolated-node=%s the result is %s" % (al, ni, r_)
                 break
     rep.check(ok, "R16.5", "single-network", "explored all vertices AND no isolated node", "singleNetwork: " + why, sn.loc(), sample=True)
+    # ---------------------------------------------------------------- R16.6
+    fsi = [f for f in F.funcs if f.qname == T + "findStructureId" and f.j["template"] == "instantiation"]
+    rep.floor("R16.6", len(fsi), 1, "instantiations of findStructureId")
+    for f in fsi[:1]:
+        rep.analysed(f)
+        g = f.j["params"][0]
+        ex = [n for n in f.walk() if n.get("k") == "call" and n.get("callee") == T + "exploreGraph"]
+        ok, why = len(ex) == 1, "expected one exploreGraph call, found %d" % len(ex)
+        if ok:
+            loops = [a for a in f.ancestors(ex[0]) if a.get("k") in ("rangefor", "for", "while")]
+            a0, a1 = unwrap(ex[0]["args"][0]), unwrap(ex[0]["args"][1])
+            ok = bool(loops) and a0.get("k") == "ref" and a0.get("dk") == "local" and a1.get("k") == "ref" and a1.get("dk") == "local"
+            why = "exploreGraph is not called on local copies inside the loop over the candidate start vertices"
+            if ok:
+                body_decls = {d["decl"]: d for n in walk(loops[0]["body"]) if n.get("k") == "decl" for d in n["decls"]}
+                dg, dv = body_decls.get(a0.get("decl")), body_decls.get(a1.get("decl"))
+                ok = dg is not None and dv is not None
+                why = "the graph (or the visitor) handed to exploreGraph is declared outside the candidate loop: labels written while exploring from one start vertex leak into the next exploration, so the id depends on the iteration order of the hash containers"
+                if ok:
+                    i0 = unwrap(dg.get("init") or {})
+                    while i0.get("k") in ("construct", "cast") and (i0.get("args") or i0.get("sub") is not None):
+                        i0 = unwrap(i0["args"][0] if i0.get("k") == "construct" else i0["sub"])
+                    ok = i0.get("k") == "ref" and i0.get("decl") == g["decl"]
+                    why = "the per-candidate copy is initialised from %s, not from the input graph" % show(dg.get("init"))
+                if ok:
+                    # the parameter is not written before the loop ends (only afterwards, to return the chosen labelling)
+                    cfg_ = CFG(f)
+                    wr = [n for n in f.walk() if n.get("k") in ("opcall", "assign") and n.get("op") == "=" and unwrap(n.get("lhs") or n["args"][0]).get("decl") == g["decl"]]
+                    ok = all(not any(x.get("id") == n["id"] for x in walk(loops[0])) and n["id"] in cfg_.where and ex[0]["id"] in cfg_.where and
+                             cfg_.where[n["id"]][0] not in cfg_.reaches([cfg_.entry], avoid={cfg_.where[n["id"]][0]}) - set() or True for n in wr) and \
+                        all(not any(x.get("id") == n["id"] for x in walk(loops[0])) for n in wr) and all(not cfg_.dominates(n["id"], ex[0]["id"]) for n in wr if n["id"] in cfg_.where)
+                    why = "the input graph is overwritten before all candidates have been explored"
+        rep.check(ok, "R16.6", "fresh-copy-per-candidate", "each candidate is explored on its own copy of the input graph with its own visitor", "findStructureId: " + why, f.loc(), sample=True)
+        # the kept id is the maximum over the candidates
+        fo6 = Fold(f).run()
+        rv = fo6.returns[0][0] if len(fo6.returns) == 1 else None
+        lp = [l for l in getattr(fo6, "loops", []) if l.get("step")]
+        okm = False
+        for l in lp:
+            for k_, stp in l["step"].items():
+                if not (f.decls.get(k_) or {}).get("type", "").startswith("std::basic_string"):
+                    continue
+                sym = l["syms"][k_]
+                if isinstance(stp, tuple) and stp and stp[0] == "ite":
+                    c, tv, fv = stp[1], stp[2], stp[3]
+                elif str(getattr(stp, "func", "")) == "ite" and len(stp.args) == 3:
+                    c, tv, fv = getattr(fo6, "conds", {}).get(str(stp.args[0])), stp.args[1], stp.args[2]
+                else:
+                    continue
+                if not (isinstance(c, tuple) and len(c) == 3 and c[0] in ("<", ">") and c[2] == 0 and "getId(" in str(tv) and fv == sym):
+                    continue
+                cmp_ = str(c[1])
+                # chosen.compare(new) < 0  or  new.compare(chosen) > 0 : the new id is larger
+                if (c[0] == "<" and cmp_.startswith("compare(%s," % sym)) or (c[0] == ">" and cmp_.startswith("compare(") and cmp_.rstrip(")").endswith(str(sym))):
+                    okm = True
+        rep.check(okm, "R16.6", "largest-id-wins", "the lexicographically largest candidate id is kept", "findStructureId does not keep the largest id over the candidates", f.loc())
     rep.assumptions += ["std::sort orders by the comparator given; std::unordered_map iteration order is arbitrary",
                         "completeness of the traversal (every reachable vertex is visited), connected-component extraction, reduce/expand round trips and the "
                         "choice among equal-degree start vertices are NOT decided: they depend on queue dynamics over arbitrary graphs"]
